@@ -333,7 +333,7 @@ Proof.
     set (st1 := fold_left (fun s c => detach s n c) (t_conv t) st).
     assert (TQ st1) as (_ & Q1) by (apply tq_fold; [intros; apply tq_detach; assumption|split; assumption]).
     eapply (qc_tset_back st1); [reflexivity|exact Q1|intros c id; apply J_frame; reflexivity|simpl; intros; discriminate].
-  - (* AQuery *) simpl. destruct (tget n (tags st)) as [t|]; [|exact Q]. destruct (refs_ok n d (tags st)); [|exact Q].
+  - (* AQuery *) simpl. destruct (tget n (tags st)) as [t|]; [|exact Q]. destruct (complex d && _); [exact Q|]. destruct (refs_ok n d (tags st)); [|exact Q].
     apply qc_start_converter, qc_start_tagging.
     assert (QC (set_tags st (tset n (mkTag d 0 (all st) (t_conv t)) (tags st)))) as Q1.
     { eapply (qc_tset_back st); [reflexivity|exact Q|intros c id; apply J_frame; reflexivity|].
@@ -517,7 +517,7 @@ Proof.
     set (st1 := fold_left (fun s c => detach s n c) (t_conv t) st).
     assert (TB3 st1) as (_ & Q1) by (apply tb3_fold; [intros; apply tb3_detach; assumption|split; assumption]).
     apply (qb_frame st1); try reflexivity; exact Q1.
-  - simpl. destruct (tget n (tags st)) as [t|]; [|exact QB]. destruct (refs_ok n d (tags st)); [|exact QB].
+  - simpl. destruct (tget n (tags st)) as [t|]; [|exact QB]. destruct (complex d && _); [exact QB|]. destruct (refs_ok n d (tags st)); [|exact QB].
     apply qb_start_converter, qb_start_tagging. apply (qb_frame st); try reflexivity; exact QB.
   - simpl. destruct (tget n (tags st)) as [t|]; [|exact QB]. destruct ids as [|i0 ids]; [exact QB|].
     destruct (N.leb_spec (next st) (maxl (i0 :: ids))) as [|LT]; [exact QB|].
